@@ -294,11 +294,22 @@ func genClose(prop string, seed uint64, run int, tier string) *Scenario {
 	g.r.S ^= 0x5bd1e995
 	// insert Close calls: 1–3 tasks, each 1–2 calls, at random positions; other
 	// clients keep calling the API around them
+	var watched []string
+	for _, o := range sc.Setup {
+		if o.K == OpAdd && !o.Abs && !strings.ContainsAny(o.P, ".") && !strings.Contains(o.P, "//") && !strings.HasSuffix(o.P, "/") {
+			watched = append(watched, o.P)
+		}
+	}
 	nclosers := 1 + g.r.Intn(3)
 	for c := 0; c < nclosers; c++ {
 		var ops []Op
 		for k := g.r.Intn(4); k > 0; k-- {
 			ops = append(ops, Op{K: OpYield})
+		}
+		if len(watched) > 0 && g.chance(0.4) {
+			// invalidate a kernel watch right before Close: its notification is still unread
+			p := watched[g.r.Intn(len(watched))]
+			ops = append(ops, []Op{{K: OpRmRF, P: p}, {K: OpRename, P: p, P2: "out/closing" + fmt.Sprint(c)}}[g.r.Intn(2)])
 		}
 		ops = append(ops, Op{K: OpClose})
 		for k := g.r.Intn(3); k > 0; k-- {
